@@ -6,7 +6,7 @@
 From Coq Require Import String.
 From Coq Require Import List Arith ZArith Bool.
 Import ListNotations.
-Require Import MD.Sched.ParFor MD.Sasa.Model MD.Sasa.Proofs MD.Gen.SasaTables.
+Require Import MD.Sched.ParFor MD.Sasa.Model MD.Sasa.Proofs MD.Sasa.Spiral MD.Sasa.SpiralProofs MD.Sasa.LowLevel MD.Sasa.LowLevelProofs MD.Gen.SasaTables MD.Gen.SasaSpiral.
 Open Scope Z_scope.
 
 (* ---- correct: the count is an independent evaluation on the same point set ---- *)
@@ -55,6 +55,94 @@ Theorem two_sphere_cap_partial : forall M (a b : atom) (s : vec),
   (M * (snd a * snd a + d2 (fst a) (fst b) - snd b * snd b) <? 2 * snd a * dot s (vsub (fst b) (fst a))).
 Proof. exact cap_criterion. Qed.
 Print Assumptions two_sphere_cap_partial.
+
+(* ---- asa_frame as the C code writes it: through its two work buffers ---- *)
+
+(* neighbor_indices[] and centered_sphere_points[] are allocated once per thread and keep what the previous atom, frame
+   or call left in them.  The buffer-level model (MD.Sasa.LowLevel: "neighbor_indices[n++] = j", the centred points
+   stored at [j], read back as neighbor_indices[k % n] and centered_sphere_points[j]) computes exactly the areas of the
+   list model used by every theorem above - whatever the buffers held, provided they are as long as sasa() allocates them. *)
+Theorem asa_frame_buffers_refine : forall K M pts ats mask buf wb1 wb2,
+  (length ats <= length wb1)%nat -> (length pts <= length wb2)%nat ->
+  fst (asa_frame_ll K M pts ats mask buf wb1 wb2) = asa_frame K M pts ats mask buf.
+Proof. exact asa_frame_ll_refines. Qed.
+Print Assumptions asa_frame_buffers_refine.
+
+Theorem asa_frame_ignores_work_buffers : forall K M pts ats mask buf wb1 wb2 wb1' wb2',
+  (length ats <= length wb1)%nat -> (length pts <= length wb2)%nat ->
+  (length ats <= length wb1')%nat -> (length pts <= length wb2')%nat ->
+  fst (asa_frame_ll K M pts ats mask buf wb1 wb2) = fst (asa_frame_ll K M pts ats mask buf wb1' wb2').
+Proof. exact asa_frame_ll_ignores_work_buffers. Qed.
+Print Assumptions asa_frame_ignores_work_buffers.
+
+(* The loop counter k / k_closest_neighbor of the point loop (a C int) never exceeds n_sphere_points * n_neighbours
+   (+ n_neighbours inside one scan): no overflow as long as (n_sphere_points + 1) * n_atoms < 2^31. *)
+Theorem cache_index_bounded : forall M ats wb1 n wb2 m j kc acc,
+  0 <= kc -> let kc' := snd (count_ll M ats wb1 n wb2 j m kc acc) in kc <= kc' <= kc + Z.of_nat m * Z.of_nat n.
+Proof. exact count_ll_k_bound. Qed.
+Print Assumptions cache_index_bounded.
+
+(* garbage in both buffers, two atoms, six points: same areas as the list model, buffers overwritten *)
+Example work_buffers_hypotheses_satisfiable :
+  asa_frame_ll 1 4 [(4, 0, 0); (-4, 0, 0); (0, 4, 0); (0, -4, 0); (0, 0, 4); (0, 0, -4)]
+               [((0, 0, 0), 10); ((12, 0, 0), 8)] [true; true] [0; 0] [7%nat; 7%nat; 9%nat] (repeat (1, 2, 3) 6) =
+  (asa_frame 1 4 [(4, 0, 0); (-4, 0, 0); (0, 4, 0); (0, -4, 0); (0, 0, 4); (0, 0, -4)]
+             [((0, 0, 0), 10); ((12, 0, 0), 8)] [true; true] [0; 0],
+   ([0%nat; 7%nat; 9%nat], [(80, 0, 0); (16, 0, 0); (48, 32, 0); (48, -32, 0); (48, 0, 32); (48, 0, -32)])) /\
+  asa_frame 1 4 [(4, 0, 0); (-4, 0, 0); (0, 4, 0); (0, -4, 0); (0, 0, 4); (0, 0, -4)]
+            [((0, 0, 0), 10); ((12, 0, 0), 8)] [true; true] [0; 0] = [500; 320].
+Proof. split; vm_compute; reflexivity. Qed.
+Print Assumptions work_buffers_hypotheses_satisfiable.
+
+(* ---- the documented point set: golden-section spiral ---- *)
+
+(* Per run: every point set the repository's generate_sphere_points produces for the n_sphere_points the correspondence
+   uses (taken from a shim that includes sasa.cpp) satisfies the golden-spiral specification MD.Sasa.Spiral.spiral_ok:
+   point i lies in the middle of the i-th of n equal-area bands in y, on the unit sphere, turned by the golden angle
+   pi*(3 - sqrt 5) with respect to point i-1, and phi_0 = 0 - within the float32/grid tolerances [spiral_tolerances]. *)
+Theorem documented_point_sets_are_golden_spirals : forallb point_set_ok shim_point_sets = true.
+Proof. exact shim_points_are_golden_spiral. Qed.
+Print Assumptions documented_point_sets_are_golden_spirals.
+
+(* For a two-atom frame the count the kernel model produces for atom a is n minus the points buried in b. *)
+Theorem two_atom_count_complement : forall M (a b : atom) pts,
+  count_naive M a [b] pts = Z.of_nat (length pts) - blocked_by M a b pts.
+Proof. exact two_atom_count_is_complement. Qed.
+Print Assumptions two_atom_count_complement.
+
+(* Two overlapping spheres, b on the +y axis of a at distance d, FULL (quadrature error included): for EVERY point set
+   that satisfies the strata and sphere parts of the specification with tolerances tol and e,
+        | buried/n - (1 - cos_cap)/2 |  <=  1/(2n) + tol/(2M) + ra*e/(4 M^3 d),     cos_cap = (ra^2 + d^2 - rb^2)/(2 ra d),
+   written without division (multiply by 2*A*M*n, A = 2 ra M d; the bounds are clipped to [0, n]).  The analytic
+   cap-removed area of a is 4 pi ra^2 (1 + cos_cap)/2, so area/(K ra^2) = n - buried is within half a point (plus the
+   tolerance terms) of it.  Other directions of b: NOT proved (the discrepancy of the spiral in a general direction is
+   measured by the correspondence: <= 0.4 sqrt(n) + 2 points); the -y axis follows by the symmetry of the strata but is
+   not stated here. *)
+Theorem two_sphere_cap_plus_y : forall M tol e (pts : list vec) (pa : vec) ra rb d,
+  0 < M -> 0 <= tol -> 0 <= e -> 0 < ra -> 0 < d -> pts <> [] ->
+  strata_sphere_ok M tol e pts = true ->
+  let n := Z.of_nat (length pts) in
+  let A := 2 * ra * M * d in
+  let T := ra * ra + d * d - rb * rb in
+  let c := blocked_by M (pa, ra) ((vx pa, vy pa + d, vz pa), rb) pts in
+  Z.min (2 * A * M * n) (2 * A * M * n - (n * (M * M * T + ra * ra * e) + A * (n - 1) * M + A * n * tol) - 2 * A * M)
+    <= 2 * A * M * c /\
+  2 * A * M * c <= Z.max 0 (2 * A * M * n - (n * (M * M * T - ra * ra * e) + A * (n - 1) * M - A * n * tol)).
+Proof. exact cap_plus_y_blocked. Qed.
+Print Assumptions two_sphere_cap_plus_y.
+
+(* the counting core of it: n points, one per band |n*y_i - (2i+1-n)*M| <= n*tol: how many satisfy A*y > B *)
+Theorem strata_quadrature : forall M tol A B (ys : nat -> Z) len,
+  0 < M -> 0 <= tol -> 0 < A -> (0 < len)%nat ->
+  let n := Z.of_nat len in
+  (forall i, (i < len)%nat -> Z.abs (n * ys i - (2 * Z.of_nat i + 1 - n) * M) <= n * tol) ->
+  let c := cnt_idx (fun i => B <? A * ys i) len in
+  let bl := n * B + A * (n - 1) * M + A * n * tol in
+  let bu := n * B + A * (n - 1) * M - A * n * tol in
+  Z.min (2 * A * M * n) (2 * A * M * n - bl - 2 * A * M) <= 2 * A * M * c /\
+  2 * A * M * c <= Z.max 0 (2 * A * M * n - bu).
+Proof. exact strata_count. Qed.
+Print Assumptions strata_quadrature.
 
 (* ---- additive ---- *)
 
@@ -201,6 +289,38 @@ Theorem atom_order_current_refuted :
 Proof. exact atom_order_current_refuted_lemma. Qed.
 Print Assumptions atom_order_current_refuted.
 
+(* ---- the form of atom_indices (sasa.py reads it twice: `ii in atom_indices` for the mask, numpy indexing for the overlay) ---- *)
+(* Non-negative integer indices in range: both readings agree, the as-found code computes the specified call ... *)
+Theorem atom_indices_valid_harmless : forall sched c l,
+  Forall (fun i => 0 <= i < Z.of_nat (length (c_elems c))) l ->
+  shrake_rupley_raw_cur sched c (RawInts l) = shrake_rupley true sched (set_sel (Some (map Z.to_nat l)) c) /\
+  shrake_rupley_raw sched c (RawInts l) = shrake_rupley true sched (set_sel (Some (map Z.to_nat l)) c).
+Proof. exact raw_valid_harmless. Qed.
+Print Assumptions atom_indices_valid_harmless.
+
+(* ... an index outside [-n, n) is refused by both ... *)
+Theorem atom_indices_out_of_range_refused : forall sched c l, mode_refused c = false ->
+  Exists (fun i => i < - Z.of_nat (length (c_elems c)) \/ Z.of_nat (length (c_elems c)) <= i) l ->
+  shrake_rupley_raw_cur sched c (RawInts l) = ErrIndex /\ shrake_rupley_raw sched c (RawInts l) = ErrIndex.
+Proof. exact raw_out_of_range_refused. Qed.
+Print Assumptions atom_indices_out_of_range_refused.
+
+(* ... but for a negative index the statement "an atom that is kept has the value it has without the restriction" is
+   FALSE of the as-found code (atom_indices = [-1]: the last atom is reported as 0 instead of its area 289) ... *)
+Theorem atom_indices_negative_current_refuted :
+  shrake_rupley_raw_cur (sched_serial 1) rawsel_witness (RawInts [-1]) = Ok [Some [-1; -1; 0]] /\
+  shrake_rupley_raw (sched_serial 1) rawsel_witness (RawInts [-1]) = Ok [Some [-1; -1; 289]] /\
+  shrake_rupley true (sched_serial 1) (set_sel (Some [2%nat]) rawsel_witness) = Ok [Some [-1; -1; 289]].
+Proof. exact raw_negative_refuted_lemma. Qed.
+Print Assumptions atom_indices_negative_current_refuted.
+
+(* ... and likewise for a boolean mask (an unselected atom gets area - 1, a selected one 0) *)
+Theorem atom_indices_boolean_current_refuted :
+  shrake_rupley_raw_cur (sched_serial 1) rawsel_witness (RawBools [true; false; true]) = Ok [Some [289; 288; 0]] /\
+  shrake_rupley_raw (sched_serial 1) rawsel_witness (RawBools [true; false; true]) = Ok [Some [289; -1; 289]].
+Proof. exact raw_boolean_refuted_lemma. Qed.
+Print Assumptions atom_indices_boolean_current_refuted.
+
 (* ---- non-vacuity: the hypotheses are satisfiable by non-trivial instances ---- *)
 
 (* two overlapping atoms, a selection of one atom, two residues, six points on the unit sphere (M = 4):
@@ -229,3 +349,12 @@ Example radii_hypothesis_satisfiable :
   Some [104857600 + 146800640; 159383552 + 146800640; 189792256 + 146800640].
 Proof. vm_compute. reflexivity. Qed.
 Print Assumptions radii_hypothesis_satisfiable.
+
+(* the hypotheses of two_sphere_cap_plus_y hold for the repository's own 96-point set with the run's tolerances, and the
+   bounds pin the count: C (0.31 nm) at the origin, a second C 0.31 nm up the y axis: cos_cap = 1/2, 24 of 96 points buried *)
+Example cap_plus_y_hypotheses_satisfiable :
+  strata_sphere_ok spiral_M (t_y spiral_tolerances) (t_norm spiral_tolerances) shim_pts96 = true /\
+  blocked_by spiral_M ((0, 0, 0), 310) ((0, 310, 0), 310) shim_pts96 = 24 /\
+  count_naive spiral_M ((0, 0, 0), 310) [((0, 310, 0), 310)] shim_pts96 = 72.
+Proof. repeat split; vm_compute; reflexivity. Qed.
+Print Assumptions cap_plus_y_hypotheses_satisfiable.
